@@ -19,6 +19,7 @@ CLAUSES = (
     'cache; put_task_pool wipes and rewrites the task_pool table from '
     'pool.get_tasks() with name, cycle, flow numbers (serialise_set), status '
     'and held flag, and is called by update_data_structure and at shutdown. '
+    'every command that ran marks the scheduler as updated. '
     'Not decided: equality of DB and memory at each iteration (dynamic).')
 
 TP = 'task_pool'
@@ -178,9 +179,50 @@ def check(c):
         c.guard_only('C26.db-snapshot-called', u, [
             'has_updated', 'self.data_store_mgr.updates_pending',
             'self.is_updated'], ml)
+    # every command that ran (to a result, or to the end of its generator)
+    # marks the scheduler as updated: commands like `stop --flow=N` change
+    # pooled tasks in place and have no other trigger for the snapshot
+    pq = c.func('scheduler', 'Scheduler.process_command_queue')
+    runs = c.find(pq, 'cmd.__anext__()')
+    c.floor('C26.command-updates', f'{pq.fq} :: cmd.__anext__()', len(runs),
+            1)
+    flag = c.assigns('self.is_updated', 'True')
+    for n in runs:
+        c.post('C26.command-updates', pq, n, flag, 'self.is_updated = True')
+        # the generator's normal end (StopAsyncIteration) is not an error
+        # path: it is suppressed around the call, or its handler sets the
+        # flag too
+        sup = False
+        cur = n
+        while id(cur) in c.idx.parent and cur is not pq.node:
+            cur = c.idx.parent[id(cur)]
+            if isinstance(cur, (ast.With, ast.AsyncWith)) and any(
+                    norm(it.context_expr) == 'suppress(StopAsyncIteration)'
+                    for it in cur.items):
+                sup = True
+            if isinstance(cur, ast.Try):
+                for h in cur.handlers:
+                    if h.type is not None and 'StopAsyncIteration' in norm(
+                            h.type):
+                        sup = any(flag(x) for x in ast.walk(h)
+                                  if isinstance(x, ast.Assign))
+        c.ob('C26.command-updates', c.key(n, pq) + ' end of the command '
+             'generator counts as actioned', sup, c.where(n, pq), '' if sup
+             else 'StopAsyncIteration is neither suppressed around the call '
+             'nor handled with is_updated = True: a command that yields no '
+             'result leaves the DB snapshot untriggered')
 
 
 VARIANTS = [
+    ('resultless-command-not-updated', 'cylc/flow/scheduler.py',
+     '''                n_warnings: Optional[int] = None
+                with suppress(StopAsyncIteration):
+                    n_warnings = await cmd.__anext__()
+            except Exception as exc:''',
+     '''                n_warnings: Optional[int] = await cmd.__anext__()
+            except StopAsyncIteration:
+                LOG.info(msg.format(result="actioned"))
+            except Exception as exc:''', 'C26.command-updates'),
     ('swap-no-flag', 'cylc/flow/task_pool.py',
      '''            self.active_tasks[itask.point][itask.identity] = itask
             self.active_tasks_changed = True
